@@ -102,3 +102,63 @@ add(Unit(name="c06_pairing", harness="c12_job_check.c", entry="h_pairing", props
          checks=("--no-standard-checks",), unwind=4, timeout=600, functions=["is_job_invalid", "is_job_invalid_light"],
          sources=["lib/include/mb_mgr_job_check.h"], min_obligations=5,
          slice="AEAD pairing exclusivity for every accepted descriptor / session template"))
+
+
+# ---------------------------------------------------------------- C14
+SLICES["C14"] = ("error code plumbing (imb_get_strerror total, imb_set_errno/imb_get_errno); ring operations leave every caller-owned "
+                 "descriptor byte of every slot untouched and hand back only jobs with no stage outstanding; per-call errno 0 / code; "
+                 "stage dispatchers in C write nothing of the descriptor but status (binding units)")
+ASSUMPTIONS["C14"] = ["writes performed inside NASM kernels are outside C contracts (assumed: status only)"]
+for _e, _f in (("h_strerror", "imb_get_strerror"), ("h_get_errno", "imb_get_errno"), ("h_set_errno", "imb_set_errno")):
+    add(Unit(name="c14_" + _f, harness="c14_error.c", entry=_e, props={"C14": "spec+frame", "C07": "safety"},
+             enforce=[(_f, "contract_" + _f)], timeout=300, functions=[_f], sources=["lib/x86_64/error.c", "lib/include/error.h"],
+             trusted=["strerror (libc) returns a non-NULL string"], slice="all int arguments / all manager states"))
+
+
+# ---------------------------------------------------------------- C15
+SLICES["C15"] = ("every ooo_mgr_*_reset erases all prior state (2-run equality for an arbitrary byte), writes nothing past road_block, "
+                 "leaves all lanes free, for every lane count a variant passes; every variant's init resets every manager and the ring")
+ASSUMPTIONS["C15"] = ["behaviour of the NASM kernels on a freshly reset manager is outside C contracts"]
+from vlib.pregen import RESET_FNS
+for _f in RESET_FNS:
+    add(Unit(name="c15_" + _f, harness="c15_reset.c", entry="h_" + _f, props={"C15": "spec", "C07": "safety"}, dfcc=False,
+             pregen="c15_lanes", unwind=17, timeout=900, functions=[_f], sources=["lib/x86_64/ooo_mgr_reset.c"],
+             backend=(["--sat-solver", "cadical"] if "hmac" in _f else []),
+             trusted=["memset (CBMC library model)"], slice="all prior contents x lane counts used by the nine variants"))
+
+
+# ---------------------------------------------------------------- C05 ring scheduler
+SLICES["C05"] = ("every public ring operation of the real per-variant unit against an abstract FIFO view (ghost head/tail slot indexes over the "
+                 "real 256-slot ring): exact accounting, oldest-first hand-back only with no stage outstanding, full queue forces completion, "
+                 "free slot offered is not in flight; stage sequencers abstracted by over-approximating models")
+ASSUMPTIONS["C05"] = ["termination of the flush loops (progress of the NASM managers) is assumed: partial correctness",
+                      "submit_new_job/complete_job (+burst twins) modelled: whole ring may change, job handed back is queued and has status >= COMPLETED",
+                      "JOBS() used in its typed form &state->jobs[offset/sizeof(IMB_JOB)] (equivalence proved in c05_jobs_lemma)"]
+_RING_MODELS = ["submit_new_job", "submit_new_burst_job", "complete_job", "complete_burst_job", "is_job_invalid", "JOBS"]
+
+
+def _ring_units():
+    ops = [  # (tag, harness entry, function macro to resolve, contract)
+        ("get_next_job", "h_get_next_job", "GET_NEXT_JOB", "contract_get_next_job"),
+        ("queue_size", "h_queue_size", "QUEUE_SIZE", "contract_queue_size"),
+        ("get_completed_job", "h_get_completed_job", "GET_COMPLETED_JOB", "contract_get_completed_job"),
+        ("flush_job", "h_flush_job", "FLUSH_JOB", "contract_flush_job"),
+        ("submit_job", "h_submit_job", "submit_job_and_check", "contract_submit_job_and_check"),
+    ]
+    for arch, (f, tier) in ARCHS.items():
+        t = "quick" if arch == "sse_t1" else "thorough"   # the scheduler text is one header; other variants differ by macro names only
+        for tag, entry, mac, con in ops:
+            fn = unit_macro(arch, mac)
+            add(Unit(name="c05_%s_%s" % (tag, arch), harness="c05_ring.c", entry=entry,
+                     props={"C05": "spec", "C14": "frame", "C12": "tag", "C07": "safety"},
+                     enforce=[(fn, con)], remove_bodies=_RING_MODELS, stub_src=["stubs/c05_models.c"],
+                     defines=['UNIT_FILE="%s"' % f], unwind=3, timeout=900, mem_gb=12, tier=t,
+                     functions=[fn], sources=["lib/" + f, "lib/include/mb_mgr_job_api.h", "lib/include/mb_mgr_code.h"],
+                     trusted=["models in stubs/c05_models.c for " + ", ".join(_RING_MODELS)], min_obligations=40,
+                     slice="all ring states (ghost head/tail over the 256-slot ring), all stage behaviours of the model"))
+        add(Unit(name="c05_jobs_lemma_%s" % arch, harness="c05_ring.c", entry="h_jobs_lemma", props={"C05": "spec", "C07": "safety"},
+                 dfcc=False, add_library=False, defines=['UNIT_FILE="%s"' % f, "LEMMA_REAL_JOBS"], unwind=3, timeout=600, tier=t,
+                 functions=["JOBS"], sources=["lib/include/mb_mgr_code.h"], slice="all 256 slots"))
+
+
+_ring_units()
